@@ -54,6 +54,7 @@ pub fn run(case: &Value, ctx: &Ctx) -> Outcome {
             // the artefact in flight: either bytes (pipe) or a path (file)
             let mut in_flight: Option<Vec<u8>> = None;
             let mut in_path: Option<String> = None;
+            let mut in_fifo = false;
             let mut x0: Vec<f64> = Vec::new();
             let mut shape: Vec<usize> = Vec::new();
             let mut files: Vec<String> = Vec::new();
@@ -115,7 +116,18 @@ pub fn run(case: &Value, ctx: &Ctx) -> Outcome {
                         args.push(p.clone());
                     }
                     let a: Vec<&str> = args.iter().map(|s| s.as_str()).collect();
-                    let r = cli::sfs(ctx, &a, in_flight.as_deref());
+                    let r = if in_fifo {
+                        // the input is a named pipe given by PATH (as in `sfs view <(sfs create ...)`)
+                        let fifo = format!("{}/files/chain_{id:016x}_{si}.fifo", ctx.work);
+                        std::fs::create_dir_all(format!("{}/files", ctx.work)).ok();
+                        let data = in_flight.clone().unwrap_or_default();
+                        match cli::sfs_fifo(ctx, &a, &data, data.len(), &fifo) {
+                            Some(r) => r,
+                            None => { out.tag("fifo-unavailable"); cli::sfs(ctx, &a, in_flight.as_deref()) }
+                        }
+                    } else {
+                        cli::sfs(ctx, &a, in_flight.as_deref())
+                    };
                     if !r.ok() {
                         out.fail(format!("toolchain/chain/{tool}-rejected-own-output{}", if r.panicked() { "-panic" } else { "" }),
                             json!({"step": si, "args": args, "code": r.code, "stderr": r.stderr, "chain": names}));
@@ -158,9 +170,11 @@ pub fn run(case: &Value, ctx: &Ctx) -> Outcome {
                     files.push(outfile.clone());
                     in_path = Some(outfile);
                     in_flight = None;
+                    in_fifo = false;
                 } else {
                     in_flight = Some(produced);
                     in_path = None;
+                    in_fifo = via == "fifo";
                 }
             }
             // final values against exact expectation
